@@ -6,7 +6,7 @@
    departure is proved as a refutation with a concrete witness, replayed on the implementation by
    the check and listed in known_findings.json. *)
 From AvroV Require Import Base Varint Schema Bytes Names Floats Codec Conforms Validate Resolve Resolution.
-From AvroV Require Import BytesP C08P.
+From AvroV Require Import BytesP C08P C08S.
 Open Scope N_scope.
 
 (* Primitive writer and reader types: every result the rules prescribe (identical types and the
@@ -83,12 +83,29 @@ Theorem C08_idempotent_leaves :
     resolve (S f) c nmz ens s v = Ok v' -> resolve (S f) c nmz ens s v' = Ok v'.
 Proof. exact leaf_idempotent. Qed.
 
+(* Beyond leaves (Proofs/C08S.v): on reader schemas built from leaves (plain fixed excluded, see
+   above), arrays, maps and records with distinct field names - at EVERY depth and size, whatever the
+   value that was resolved (any writer shape, map-for-record, union-wrapped values, defaults used) -
+   resolving the result again changes nothing, and the result validates against the reader schema
+   (enums with fewer than 2^32 symbols).  Unions and references are outside this fragment: there the
+   two clauses are checked by the correspondence, and fail in the classes refuted below. *)
+Theorem C08_idempotent_fragment :
+  forall fuel c nmz ens s v v',
+    idemb fuel s = true -> resolve fuel c nmz ens s v = Ok v' -> resolve fuel c nmz ens s v' = Ok v'.
+Proof. exact resolve_idempotent. Qed.
+
+Theorem C08_result_validates_fragment :
+  forall fuel c nmz ens s v v' find nmz' ens',
+    validb fuel s = true -> resolve fuel c nmz ens s v = Ok v' -> validate fuel find nmz' ens' s v' = Ok true.
+Proof. exact resolve_validates. Qed.
+
 (* Witnesses for the model's departures from the rules (each class is a known finding). *)
 Definition cfg0 : cfg := mkCfg 4096 56 80.
 Definition nm (s : list N) : name := mkName None s.
 Definition fld (n : list N) (al : list (list N)) : fmeta := mkFmeta n None al None [].
 Definition fx (n : list N) (sz : N) : fixedS := mkFixed (nm n) None None sz [].
 Definition rd (R : schema) (v : value) := resolve 8 cfg0 [] None R v.
+Definition rd6 (R : schema) (v : value) := resolve 6 cfg0 [] None R v.
 Definition sp (W R : schema) (v : value) := spec_read 8 [] [] None None W R v.
 Definition ub : bytes := [1;2;3;4;5;6;7;8;9;10;11;12;13;14;15;16].
 Definition Empty1 := SRecord (nm [69]) None None [] [].
@@ -149,3 +166,19 @@ Example C08_spec_examples :
   sp W R v = Some (VRecord [([98], VBytes [120]); ([99], VLong 9); ([97], VDouble (f64_of_Z 3))]) /\
   rd R v = Ok (VRecord [([98], VBytes [120]); ([99], VLong 9); ([97], VDouble (f64_of_Z 3))]).
 Proof. split; vm_compute; reflexivity. Qed.
+
+(* the fragment is inhabited by a nested reader schema and a value that needs promotion, reordering,
+   a dropped writer field, an enum default and a field default *)
+Example C08_fragment_example :
+  let E := SEnum (nm [69]) None None [[65]; [66]] (Some [66]) [] in
+  let R := SRecord (nm [82]) None None
+             [(fld [98] [], SArray SDouble []); (fld [97] [], SLong);
+              (mkFmeta [99] None [] (Some (JInt 7)) [], SInt); (fld [101] [], SMap E [])] [] in
+  let v := VRecord [([97], VInt 5); ([120], VNull); ([98], VArray [VInt 1; VLong 2]);
+                    ([101], VMap [([107], VEnum 9 [90])])] in
+  let v' := VRecord [([98], VArray [VDouble (f64_of_Z 1); VDouble (f64_of_Z 2)]); ([97], VLong 5);
+                     ([99], VInt 7); ([101], VMap [([107], VEnum 1 [66])])] in
+  idemb 6 R = true /\ validb 6 R = true /\
+  rd6 R v = Ok v' /\ rd6 R v' = Ok v' /\
+  validate 6 (fun _ _ _ _ => Ok false) [] None R v' = Ok true.
+Proof. repeat split; vm_compute; reflexivity. Qed.
